@@ -308,49 +308,62 @@ func (failingRunner) Diagnose(context.Context) string                  { return 
 func (failingRunner) PluginToHost(n, a string) (string, string, error) { return n, a, nil }
 func (failingRunner) HostToPlugin(n, a string) (string, string, error) { return n, a, nil }
 
-// runForeignKill: the plugin is the child of a launcher process; this process only reattaches and kills.
-func runForeignKill(c killCase, in sx.V, marker string) (sx.V, sx.V) {
-	fail := sx.L{sx.I(0), sx.I(0), sx.I(0), sx.I(0), sx.I(0)}
+// startForeignPlugin starts a plugin as the child of a launcher process (not of this one) and returns where it is.
+func startForeignPlugin(proto, behaviour, marker string) (pid int, na net.Addr, protoStr string, cleanup func(), err error) {
 	self, _ := os.Executable()
 	cf, _ := os.CreateTemp("", "hx-kl-*.json")
-	fmt.Fprintf(cf, `[{"proto":%q,"behaviour":%q,"launch":"cmd","pattern":"single","mux":false}]`, c.Proto, c.Behaviour)
+	fmt.Fprintf(cf, `[{"proto":%q,"behaviour":%q,"launch":"cmd","pattern":"single","mux":false}]`, proto, behaviour)
 	cf.Close()
-	defer os.Remove(cf.Name())
 	lc := exec.Command(self, "kill-launcher", "-cases", cf.Name(), "-out", os.TempDir())
 	lc.Env = append(os.Environ(), "KILL_MARKER="+marker)
 	stdin, _ := lc.StdinPipe()
 	stdout, _ := lc.StdoutPipe()
-	if err := lc.Start(); err != nil {
-		return in, fail
+	if err = lc.Start(); err != nil {
+		os.Remove(cf.Name())
+		return 0, nil, "", func() {}, err
 	}
-	defer func() { stdin.Close(); lc.Process.Kill(); lc.Wait() }()
-	var pid int
-	var network, addr, proto string
+	cleanup = func() {
+		stdin.Close()
+		lc.Process.Kill()
+		lc.Wait()
+		os.Remove(cf.Name())
+		if pid > 0 && procAlive(pid) {
+			syscall.Kill(pid, syscall.SIGKILL)
+		}
+	}
+	var network, addr string
 	lineCh := make(chan bool, 1)
 	go func() {
-		_, err := fmt.Fscanf(stdout, "%d %s %s %s\n", &pid, &network, &addr, &proto)
-		lineCh <- err == nil
+		_, e := fmt.Fscanf(stdout, "%d %s %s %s\n", &pid, &network, &addr, &protoStr)
+		lineCh <- e == nil
 	}()
 	select {
 	case ok := <-lineCh:
 		if !ok {
-			return in, fail
+			cleanup()
+			return 0, nil, "", func() {}, fmt.Errorf("launcher printed nothing usable")
 		}
 	case <-time.After(15 * time.Second):
-		return in, fail
+		cleanup()
+		return 0, nil, "", func() {}, fmt.Errorf("launcher timed out")
 	}
-	defer func() {
-		if pid > 0 && procAlive(pid) {
-			syscall.Kill(pid, syscall.SIGKILL)
-		}
-		os.Remove(marker)
-	}()
-	var na net.Addr
 	if network == "unix" {
 		na, _ = net.ResolveUnixAddr("unix", addr)
 	} else {
 		na, _ = net.ResolveTCPAddr("tcp", addr)
 	}
+	return pid, na, protoStr, cleanup, nil
+}
+
+// runForeignKill: the plugin is the child of a launcher process; this process only reattaches and kills.
+func runForeignKill(c killCase, in sx.V, marker string) (sx.V, sx.V) {
+	fail := sx.L{sx.I(0), sx.I(0), sx.I(0), sx.I(0), sx.I(0)}
+	pid, na, proto, cleanup, err := startForeignPlugin(c.Proto, c.Behaviour, marker)
+	if err != nil {
+		return in, fail
+	}
+	defer cleanup()
+	defer os.Remove(marker)
 	base := vpClientConfig(vpOpts{Proto: c.Proto})
 	target := plugin.NewClient(&plugin.ClientConfig{HandshakeConfig: base.HandshakeConfig, Plugins: base.Plugins,
 		Reattach: &plugin.ReattachConfig{Protocol: plugin.Protocol(proto), ProtocolVersion: 1, Addr: na, Pid: pid}, Logger: hk.QuietLogger()})
